@@ -106,6 +106,10 @@ def corpus_specs():
         # a test that writes storage followed by one that reads it
         {"id": "corpus-write-read", "flavour": "regular", "slot1": 5, "target": None, "depth": 0,
          "tests": [["a", "write", 7], ["b", "slotis", 7], ["c", "slotplus", 100], ["d", "tstore", 7]], "devdoc": {}, "early_exit": False},
+        # setUp moves the clock relative to the current one: a block environment that survives from an
+        # earlier run / contract in the same process shows up as a different timestamp
+        {"id": "corpus-setup-warp", "flavour": "regular", "slot1": 5, "target": None, "depth": 0, "setup_warp": 100,
+         "tests": [["ts", "tsis", 101], ["m", "eqmagic", 42]], "devdoc": {}, "early_exit": False},
         {"id": "corpus-mixed", "flavour": "mixed", "slot1": 7, "target": ["inc", "dbl", "reset"], "depth": 2,
          "tests": [["a", "writex", 99], ["b", "inv_lt", 3], ["c", "slotis", 7], ["d", "inv_ne", 3]], "devdoc": {}, "early_exit": False},
     ]
